@@ -168,6 +168,8 @@ func (r *fsmRig) runReports(id int, label string, tid uint64, seed *channels.Ver
 			if s.index < 1 || s.index > d.maxPos+1 {
 				d.contiguous = false
 			}
+			_, seenBefore := d.sizeOf[s.index]
+			replayOfUnique := seenBefore && d.uniqOf[s.index]
 			if _, ok := d.sizeOf[s.index]; !ok {
 				d.sizeOf[s.index], d.uniqOf[s.index] = s.size, s.unique
 				if s.unique {
@@ -199,6 +201,12 @@ func (r *fsmRig) runReports(id int, label string, tid uint64, seed *channels.Ver
 			if s.index <= bi[s.k] && s.index >= 1 && d.contiguous && d.consistent && now[s.k] != before[s.k] {
 				r.res.fail(monitorFailure{Property: "C07", CaseID: id, Signature: "replayed-position-counted",
 					What: "a position reported again increased a byte total", Input: label})
+			}
+			// whatever the gaps between the positions reported so far: a position that was already reported as a
+			// unique block (it made progress then, or was already below the mark) never counts again
+			if replayOfUnique && now[s.k] != before[s.k] {
+				r.res.fail(monitorFailure{Property: "C07", CaseID: id, Signature: "replayed-position-counted-after-gap",
+					What: "a position that had already been reported as a unique block increased a byte total when it was reported again", Input: label})
 			}
 			// C08: pause exactly when the limited total reaches a non-zero limit (domain of the property:
 			// a transferring responder channel whose limited direction is the only one reported)
